@@ -10,7 +10,7 @@ import cfgcommon as cc
 from c06 import CLASS_FILE, run_cli, latest_json
 
 # set to True once the report is deterministic (C05 repairs): then sections are compared exactly, order included
-STRICT_ORDER = False
+STRICT_ORDER = True
 DROP_KEYS = {"generated_at", "duration_ms", "GeneratedAt", "Duration", "analysis_time", "AnalysisTime", "version", "Version",
              "OutputWriter", "OutputPath", "ConfigPath", "config_path"}
 # value-level fields that the recorded reproducibility findings (F4/F11, property C05) make differ between two runs of
